@@ -345,7 +345,12 @@ func (u *Unit) evalBuiltin(name string, call *ast.CallExpr, st *State) []Val {
 		cur := s
 		for _, a := range call.Args[1:] {
 			v := u.convert(u.evalExprExpect(a, st0.Elem(), st), st0.Elem(), st)
+			prev := cur
 			cur = u.appendOne(cur, v)
+			if u.inCommute {
+				bp := u.bagOf(prev)
+				st.assume(eq(u.bagOf(cur), "(store "+bp+" "+v.T+" (+ (select "+bp+" "+v.T+") 1))"))
+			}
 		}
 		if len(s.Elems) > 0 || strings.HasSuffix(s.T, " 0 true)") || strings.HasSuffix(s.T, " 0 false)") {
 			// keep the literal element list when it is fully known
